@@ -285,9 +285,24 @@ def Outcome.map {α β : Type} (f : α → β) : Outcome α → Outcome β
   | .recursiveCalibration i => .recursiveCalibration i
   | .outOfFuel => .outOfFuel
 
+/-- the with-source-map loop adds exactly what `add_instructions` adds (for every instruction kind: both call
+`add_instruction`, whose routing is `Prog.add`) -/
+theorem appendLoop_fst (previous : Nat) :
+    ∀ (out : List Instruction) (p : Prog) (removed : List Nat),
+      (Prog.appendLoop previous p out removed).1 = p.addMany out := by
+  intro out
+  induction out with
+  | nil => intro p removed; rfl
+  | cons i rest ih =>
+    intro p removed
+    simp only [Prog.appendLoop]
+    split <;> exact ih _ _
+
 theorem appendExpansion_fst (p : Prog) (out : List Instruction) (src : Nat) (sm : Option (List Entry)) :
     (p.appendExpansion out src sm).1 = p.addMany out := by
-  cases sm <;> rfl
+  cases sm with
+  | none => rfl
+  | some es => simp [Prog.appendExpansion, appendLoop_fst]
 
 theorem addMany_append (p : Prog) (xs ys : List Instruction) :
     p.addMany (xs ++ ys) = (p.addMany xs).addMany ys := by
@@ -796,5 +811,398 @@ theorem measMatches_iff (c : MCalDef) (m : Measurement) (idx : Nat) :
     simp [toQubit16]
 
 end
+
+end QV.C17
+
+namespace QV.C17
+open QV QV.Ast
+
+/-! ### `add_instruction`'s routing, kind by kind; the with-source-map loop -/
+
+theorem upsert_mem {K V : Type} [DecidableEq K] (m : List (K × V)) (k : K) (v : V) :
+    (k, v) ∈ upsert m k v := by
+  induction m with
+  | nil => simp [upsert]
+  | cons kv rest ih =>
+    obtain ⟨a, b⟩ := kv
+    unfold upsert
+    split
+    · simp
+    · exact List.mem_cons_of_mem _ ih
+
+theorem replace_mem {α σ : Type} [DecidableEq σ] (sig : α → σ) (cs : List α) (v : α) :
+    v ∈ (C16.replace sig cs v).1 := by
+  unfold C16.replace
+  split
+  · rename_i i hi
+    obtain ⟨c, hc, _, _⟩ := C16.sigPos_some sig _ cs i hi
+    have hlt : i < cs.length := (List.getElem?_eq_some_iff.mp hc).1
+    exact List.mem_iff_getElem.mpr ⟨i, by simpa using hlt, by simp⟩
+  · simp
+
+/-- the `start_length == end_length` test of the with-source-map loop recognises exactly the kinds that
+`add_instruction` routes outside the body -/
+theorem add_hoists_iff (p : Prog) (i : Instruction) :
+    (p.add i).instructions.length = p.instructions.length ↔ isDefinition i = true := by
+  rw [add_instructions]
+  cases isDefinition i <;> simp
+
+/-- every kind routed outside the body is kept: the instruction itself is listed among the definitions of the
+program (`to_instructions` rebuilds it from its container) -/
+theorem add_definition_stored (p : Prog) (i : Instruction) (h : isDefinition i = true) :
+    i ∈ (p.add i).definitions := by
+  cases i <;> simp only [isDefinition] at h <;> try (cases h)
+  all_goals simp only [Prog.add, Prog.definitions, Cals.toInstructions, List.mem_append, List.mem_map]
+  · -- calibrationDefinition
+    rename_i id is
+    refine Or.inl (Or.inl (Or.inr (Or.inl ⟨⟨id, is⟩, replace_mem _ _ _, rfl⟩)))
+  · rename_i n ps qs is
+    exact Or.inr ⟨(n, _), upsert_mem _ _ _, rfl⟩
+  · rename_i d
+    exact Or.inl (Or.inl (Or.inl (Or.inl (Or.inl (Or.inr ⟨(d.name, _), upsert_mem _ _ _, rfl⟩)))))
+  · rename_i f
+    exact Or.inl (Or.inl (Or.inl (Or.inl (Or.inr ⟨(f.identifier, _), upsert_mem _ _ _, rfl⟩))))
+  · rename_i g
+    exact Or.inl (Or.inr ⟨(g.name, _), upsert_mem _ _ _, rfl⟩)
+  · rename_i id is
+    refine Or.inl (Or.inl (Or.inr (Or.inr ⟨⟨id, is⟩, replace_mem _ _ _, rfl⟩)))
+  · rename_i pr
+    have hn : (pr.name == "EXTERN") = true := h
+    simp only [hn, if_true]
+    exact Or.inl (Or.inl (Or.inl (Or.inl (Or.inl (Or.inl ⟨(externKey pr, _), upsert_mem _ _ _, rfl⟩)))))
+  · rename_i w
+    exact Or.inl (Or.inl (Or.inl (Or.inr ⟨(w.name, _), upsert_mem _ _ _, rfl⟩)))
+
+
+/-- an instruction that is not a definition leaves every container but the body alone -/
+theorem add_nondefinition (p : Prog) (i : Instruction) (h : isDefinition i = false) :
+    (p.add i).definitions = p.definitions ∧ (p.add i).instructions = p.instructions ++ [i] := by
+  refine ⟨?_, by rw [add_instructions, h]; simp⟩
+  cases i <;> simp only [isDefinition] at h <;> try (cases h)
+  all_goals try rfl
+  rename_i pr
+  have hn : (pr.name == "EXTERN") = false := h
+  simp [Prog.add, hn, Prog.definitions]
+
+/-- the relative target indices the with-source-map loop must remove: the position (among the instructions that
+land in the body) of every hoisted instruction -/
+def removedSpec : Nat → List Instruction → List Nat
+  | _, [] => []
+  | k, i :: rest => if isDefinition i then k :: removedSpec k rest else removedSpec (k + 1) rest
+
+theorem appendLoop_removed (previous : Nat) :
+    ∀ (out : List Instruction) (p : Prog) (removed : List Nat), previous ≤ p.instructions.length →
+      (Prog.appendLoop previous p out removed).2 =
+        removed ++ removedSpec (p.instructions.length - previous) out := by
+  intro out
+  induction out with
+  | nil => intro p removed _; simp [Prog.appendLoop, removedSpec]
+  | cons i rest ih =>
+    intro p removed hle
+    simp only [Prog.appendLoop, removedSpec]
+    have hadd := add_instructions p i
+    cases hd : isDefinition i
+    · have hlen : (p.add i).instructions.length = p.instructions.length + 1 := by
+        rw [hadd, hd]; simp
+      have hne : (p.instructions.length == (p.add i).instructions.length) = false := by
+        rw [hlen]; simp
+      simp only [hne, Bool.false_eq_true, if_false]
+      rw [ih _ _ (by omega), hlen]
+      congr 2
+      omega
+    · have hlen : (p.add i).instructions.length = p.instructions.length := by
+        rw [hadd, hd]; simp
+      have heq : (p.instructions.length == (p.add i).instructions.length) = true := by
+        rw [hlen]; simp
+      simp only [heq, if_true]
+      rw [ih _ _ (by omega), hlen]
+      simp
+
+end QV.C17
+
+namespace QV.C17
+open QV QV.Ast
+
+/-! ### nested definitions in gate-calibration bodies -/
+
+theorem bindQ_none (cqs gqs : List Qubit) (n : String) (h : n ∉ qubitVarNames cqs) :
+    bindQ cqs gqs n = none := by
+  induction cqs generalizing gqs with
+  | nil => simp [bindQ]
+  | cons cq cqs ih =>
+    cases gqs with
+    | nil => simp [bindQ]
+    | cons gq gqs =>
+      rw [bindQ_cons]
+      have h1 : n ∉ qubitVarNames cqs := by
+        intro hm; apply h
+        simp only [qubitVarNames, List.filterMap_cons] at hm ⊢
+        split <;> simp_all
+      have h2 : cq ≠ .variable n := by
+        intro hc; apply h; subst hc
+        simp [qubitVarNames]
+      simp [ih gqs h1, h2]
+
+theorem bindP_none (cps gps : List PExpr) (n : String) (h : n ∉ paramVarNames cps) :
+    bindP cps gps n = none := by
+  induction cps generalizing gps with
+  | nil => simp [bindP]
+  | cons cp cps ih =>
+    cases gps with
+    | nil => simp [bindP]
+    | cons gp gps =>
+      rw [bindP_cons]
+      have h1 : n ∉ paramVarNames cps := by
+        intro hm; apply h
+        simp only [paramVarNames, List.filterMap_cons] at hm ⊢
+        split <;> simp_all
+      have h2 : cp ≠ .var n := by
+        intro hc; apply h; subst hc
+        simp [paramVarNames]
+      simp [ih gps h1, h2]
+
+theorem subst_id (σ : String → Option PExpr) (e : PExpr) (h : ∀ x ∈ e.vars, σ x = none) :
+    QV.subst σ e = e := by
+  induction e with
+  | address r => rfl
+  | call f e ih => simp [QV.subst, ih (by simpa [Expr.vars] using h)]
+  | bin l o r ihl ihr =>
+    simp only [Expr.vars, List.mem_append] at h
+    simp [QV.subst, ihl (fun x hx => h x (Or.inl hx)), ihr (fun x hx => h x (Or.inr hx))]
+  | number z => rfl
+  | pi => rfl
+  | pre o e ih => simp [QV.subst, ih (by simpa [Expr.vars] using h)]
+  | var x => simp [QV.subst, h x (by simp [Expr.vars])]
+
+theorem substQ_free (σ : String → Option Qubit) (qn : List String) (hσ : ∀ n, n ∉ qn → σ n = none)
+    (q : Qubit) (h : qubitFree qn q = true) : substQ σ q = q := by
+  rcases q with k | k | n <;> simp_all [substQ, qubitFree]
+
+theorem map_substQ_free (σ : String → Option Qubit) (qn : List String) (hσ : ∀ n, n ∉ qn → σ n = none)
+    (qs : List Qubit) (h : qs.all (qubitFree qn) = true) : qs.map (substQ σ) = qs := by
+  induction qs with
+  | nil => rfl
+  | cons q qs ih =>
+    simp only [List.all_cons, Bool.and_eq_true] at h
+    simp [substQ_free σ qn hσ q h.1, ih h.2]
+
+theorem subst_free (σ : String → Option PExpr) (pn : List String) (hσ : ∀ n, n ∉ pn → σ n = none)
+    (e : PExpr) (h : exprFree pn e = true) : QV.subst σ e = e := by
+  apply subst_id
+  intro x hx
+  apply hσ
+  simp only [exprFree, List.all_eq_true, Bool.not_eq_true', List.contains_eq_mem, decide_eq_false_iff_not] at h
+  exact h x hx
+
+
+theorem map_subst_free (σ : String → Option PExpr) (pn : List String) (hσ : ∀ n, n ∉ pn → σ n = none)
+    (es : List PExpr) (h : es.all (exprFree pn) = true) : es.map (QV.subst σ) = es := by
+  induction es with
+  | nil => rfl
+  | cons e es ih =>
+    simp only [List.all_cons, Bool.and_eq_true] at h
+    simp [subst_free σ pn hσ e h.1, ih h.2]
+
+theorem map_terms_free (f : PExpr → PExpr) (pn : List String)
+    (hf : ∀ e, exprFree pn e = true → f e = e) (ts : List PauliTerm)
+    (h : ts.all (fun t => exprFree pn t.expression) = true) :
+    ts.map (fun t => { t with expression := f t.expression }) = ts := by
+  induction ts with
+  | nil => rfl
+  | cons t ts ih =>
+    simp only [List.all_cons, Bool.and_eq_true] at h
+    simp [hf _ h.1, ih h.2]
+
+theorem map_gates_free (fq : Qubit → Qubit) (fe : PExpr → PExpr) (qn pn : List String)
+    (hq : ∀ qs : List Qubit, qs.all (qubitFree qn) = true → qs.map fq = qs)
+    (he : ∀ es : List PExpr, es.all (exprFree pn) = true → es.map fe = es) (gs : List Gate)
+    (h : gs.all (gateFree qn pn) = true) : (gs.map (mapGateQ fq)).map (mapGateE fe) = gs := by
+  induction gs with
+  | nil => rfl
+  | cons t ts ih =>
+    simp only [List.all_cons, Bool.and_eq_true, gateFree] at h
+    simp [mapGateQ, mapGateE, hq _ h.1.1, he _ h.1.2, ih h.2]
+
+/-- an admitted nested definition is instantiated by the code exactly as the generic traversals say -/
+theorem gateSubstCode_eq_nested (c : CalDef) (g : Gate) (i : Instruction)
+    (h : nestedOkB (qubitVarNames c.identifier.qubits) (paramVarNames c.identifier.parameters) i = true) :
+    gateSubstCode c g i = gateSubstSpec c g i := by
+  have hq : ∀ n, n ∉ qubitVarNames c.identifier.qubits → bindQ c.identifier.qubits g.qubits n = none :=
+    fun n hn => bindQ_none _ _ n hn
+  have hp : ∀ n, n ∉ paramVarNames c.identifier.parameters →
+      bindP c.identifier.parameters g.parameters n = none := fun n hn => bindP_none _ _ n hn
+  have hσp : (fun x => List.lookup x (variableExpansions c.identifier.parameters g.parameters [])) =
+      bindP c.identifier.parameters g.parameters := by funext x; simp [lookup_variableExpansions]
+  simp only [gateSubstCode, gateSubstSpec, hσp]
+  cases i <;> simp only [nestedOkB] at h <;> try (cases h)
+  case calibrationDefinition id is =>
+    simp [substituteQubitVariables, applyToExpressions, mapQubits, mapExprs, map_substQ_free _ _ hq _ h]
+  case circuitDefinition n ps qs is => rfl
+  case frameDefinition fd =>
+    simp [substituteQubitVariables, applyToExpressions, mapQubits, mapExprs, mapFrameQ,
+      map_substQ_free _ _ hq _ h]
+  case measureCalibrationDefinition id is =>
+    simp [substituteQubitVariables, applyToExpressions, mapQubits, mapExprs, substQ_free _ _ hq _ h]
+  case gateDefinition gd =>
+    obtain ⟨name, params, spec⟩ := gd
+    cases spec with
+    | matrix rows => simp [substituteQubitVariables, applyToExpressions, mapQubits, mapExprs, mapSpecE]
+    | permutation perm => simp [substituteQubitVariables, applyToExpressions, mapQubits, mapExprs, mapSpecE]
+    | pauliSum s =>
+      simp only [] at h
+      have := map_terms_free (QV.subst (bindP c.identifier.parameters g.parameters)) _
+        (fun e he => subst_free _ _ hp e he) s.terms h
+      simp [substituteQubitVariables, applyToExpressions, mapQubits, mapExprs, mapSpecE, this]
+    | sequence s =>
+      simp only [] at h
+      have := map_gates_free (substQ (bindQ c.identifier.qubits g.qubits))
+        (QV.subst (bindP c.identifier.parameters g.parameters)) _ _
+        (fun qs hqs => map_substQ_free _ _ hq qs hqs) (fun es hes => map_subst_free _ _ hp es hes) s.gates h
+      simp [substituteQubitVariables, applyToExpressions, mapQubits, mapExprs, mapSpecE, this]
+
+/-- plain instructions and admitted nested definitions alike -/
+theorem gateSubstCode_eq_admit (c : CalDef) (g : Gate) (i : Instruction)
+    (h : admitB (qubitVarNames c.identifier.qubits) (paramVarNames c.identifier.parameters) i = true) :
+    gateSubstCode c g i = gateSubstSpec c g i := by
+  simp only [admitB, Bool.or_eq_true] at h
+  rcases h with h | h
+  · exact gateSubstCode_eq c g i h
+  · exact gateSubstCode_eq_nested c g i h
+
+end QV.C17
+
+namespace QV.C17
+open QV QV.Ast
+
+/-! ### nested definitions in measurement-calibration bodies -/
+
+theorem map_attr_id (g : PExpr → PExpr) (attrs : List (String × AttributeValue))
+    (h : ∀ e ∈ attrs.filterMap (fun kv => match kv.2 with | .expression e => some e | _ => none), g e = e) :
+    attrs.map (mapAttribute g) = attrs := by
+  induction attrs with
+  | nil => rfl
+  | cons kv rest ih =>
+    obtain ⟨k, v⟩ := kv
+    cases v with
+    | string s =>
+      simp only [List.filterMap_cons] at h
+      simp [mapAttribute, ih h]
+    | expression e =>
+      simp only [List.filterMap_cons, List.mem_cons, forall_eq_or_imp] at h
+      simp [mapAttribute, h.1, ih h.2]
+
+theorem map_id_of_forall {α : Type} (g : α → α) (l : List α) (h : ∀ e ∈ l, g e = e) : l.map g = l := by
+  induction l with
+  | nil => rfl
+  | cons a t ih =>
+    simp [h a (List.mem_cons_self ..), ih (fun e he => h e (List.mem_cons_of_mem _ he))]
+
+/-- the expression traversal is the identity on a nested definition whose expressions it fixes -/
+theorem mapExprs_nested_id (g : PExpr → PExpr) (qn pn : List String) (i : Instruction)
+    (hk : nestedOkB qn pn i = true) (h : ∀ e ∈ nestedExprs i, g e = e) : mapExprs g i = i := by
+  cases i <;> simp only [nestedOkB] at hk <;> try (cases hk)
+  case calibrationDefinition id is =>
+    simp only [nestedExprs] at h
+    simp [mapExprs, map_id_of_forall g _ h]
+  case circuitDefinition => rfl
+  case frameDefinition fd =>
+    simp only [nestedExprs] at h
+    simp [mapExprs, map_attr_id g _ h]
+  case measureCalibrationDefinition => rfl
+  case gateDefinition gd =>
+    obtain ⟨name, params, spec⟩ := gd
+    cases spec with
+    | matrix rows =>
+      simp only [nestedExprs, List.mem_flatten] at h
+      have : rows.map (fun r => r.map g) = rows :=
+        map_id_of_forall _ _ (fun r hr => map_id_of_forall g r (fun e he => h e ⟨r, hr, he⟩))
+      simp [mapExprs, mapSpecE, this]
+    | permutation perm => simp [mapExprs, mapSpecE]
+    | pauliSum s =>
+      simp only [nestedExprs, List.mem_map] at h
+      have : s.terms.map (fun t => { t with expression := g t.expression }) = s.terms :=
+        map_id_of_forall _ _ (fun t ht => by simp [h t.expression ⟨t, ht, rfl⟩])
+      simp [mapExprs, mapSpecE, this]
+    | sequence s =>
+      simp only [nestedExprs, List.mem_flatMap] at h
+      have : s.gates.map (mapGateE g) = s.gates :=
+        map_id_of_forall _ _ (fun t ht => by
+          simp [mapGateE, map_id_of_forall g t.parameters (fun e he => h e ⟨t, ht, he⟩)])
+      simp [mapExprs, mapSpecE, this]
+
+theorem measBindQ_none (c : MCalDef) (m : Measurement) (n : String)
+    (h : n ∉ qubitVarNames [c.identifier.qubit]) : measBindQ c m n = none := by
+  unfold measBindQ
+  split
+  · rename_i hq
+    exfalso; apply h
+    simp [qubitVarNames, hq]
+  · rfl
+
+/-- an admitted nested definition in a measurement calibration body is left as written by the code and by the
+specification alike -/
+theorem measSubstCode_eq_nested (c : MCalDef) (m : Measurement) (i : Instruction)
+    (hk : nestedOkB (qubitVarNames [c.identifier.qubit]) [] i = true)
+    (hf : ∀ f, c.identifier.target = some f →
+      ∀ e ∈ nestedExprs i, ∀ r ∈ e.addrs, r.name ≠ f) :
+    measSubstCode c m i = measSubstSpec c m i := by
+  have hq : ∀ n, n ∉ qubitVarNames [c.identifier.qubit] → measBindQ c m n = none :=
+    fun n hn => measBindQ_none c m n hn
+  -- the qubit traversal fixes the definition
+  have hmq : mapQubits (substQ (measBindQ c m)) i = i := by
+    cases i <;> simp only [nestedOkB] at hk <;> try (cases hk)
+    case calibrationDefinition id is => simp [mapQubits, map_substQ_free _ _ hq _ hk]
+    case circuitDefinition => rfl
+    case frameDefinition fd => simp [mapQubits, mapFrameQ, map_substQ_free _ _ hq _ hk]
+    case measureCalibrationDefinition id is => simp [mapQubits, substQ_free _ _ hq _ hk]
+    case gateDefinition gd =>
+      obtain ⟨name, params, spec⟩ := gd
+      cases spec with
+      | matrix rows => rfl
+      | permutation perm => rfl
+      | pauliSum s => rfl
+      | sequence s =>
+        simp only [] at hk
+        have : s.gates.map (mapGateQ (substQ (measBindQ c m))) = s.gates :=
+          map_id_of_forall _ _ (fun t ht => by
+            have := (List.all_eq_true.mp hk) t ht
+            simp only [gateFree, Bool.and_eq_true] at this
+            simp [mapGateQ, map_substQ_free _ _ hq _ this.1])
+        simp [mapQubits, this]
+  -- the code does nothing to it
+  have hcode : measSubstCode c m i = i := by
+    cases i <;> simp only [nestedOkB] at hk <;> try (cases hk)
+    all_goals simp [measSubstCode, substituteQubitVariables, measureTargetSubst]
+  rw [hcode]
+  simp only [measSubstSpec, hmq]
+  cases hft : c.identifier.target with
+  | none => simp
+  | some f =>
+    cases hat : m.target with
+    | none => simp
+    | some a =>
+      simp only []
+      have hd : mapDirectRefs (retarget f a) i = i := by
+        cases i <;> simp only [nestedOkB] at hk <;> try (cases hk)
+        all_goals rfl
+      have he : mapExprs (mapAddr (retarget f a)) i = i :=
+        mapExprs_nested_id _ _ _ i hk (fun e he => mapAddr_retarget_id f a e (hf f hft e he))
+      have hp : retargetPragma f a i = i := by
+        cases i <;> simp only [nestedOkB] at hk <;> try (cases hk)
+        all_goals rfl
+      simp [retargetInstr, mapMemRefs, hd, he, hp]
+
+theorem measSubstCode_eq_admit (c : MCalDef) (m : Measurement) (i : Instruction)
+    (h : admitMB (qubitVarNames [c.identifier.qubit]) c.identifier.target i = true)
+    (hm : c.identifier.target.isSome = m.target.isSome) :
+    measSubstCode c m i = measSubstSpec c m i := by
+  simp only [admitMB, Bool.or_eq_true, Bool.and_eq_true] at h
+  rcases h with ⟨hp, hc⟩ | ⟨hk, hf⟩
+  · exact measSubstCode_eq c m i hp hc hm
+  · apply measSubstCode_eq_nested c m i hk
+    intro f hft e he r hr
+    rw [hft] at hf
+    simp only [List.all_eq_true, bne_iff_ne, ne_eq] at hf
+    exact hf e he r hr
 
 end QV.C17
